@@ -16,6 +16,7 @@ import (
 	"runtime"
 	"strings"
 	"sync"
+	"sync/atomic"
 	"testing"
 	"time"
 )
@@ -406,3 +407,13 @@ func Go(f func()) {
 	}()
 }
 func Join() { wg.Wait() }
+
+// YieldUntil waits (at most two seconds) until another goroutine called
+// SetFlag on the same flag.
+func YieldUntil(flag *int32) {
+	deadline := time.Now().Add(2 * time.Second)
+	for atomic.LoadInt32(flag) == 0 && time.Now().Before(deadline) {
+		runtime.Gosched()
+	}
+}
+func SetFlag(flag *int32) { atomic.StoreInt32(flag, 1) }
